@@ -166,3 +166,43 @@ func RunTree(s Settings, now time.Time, parent []Step, kids []Step, level int, o
 	}
 	return out
 }
+
+// RunOutputFork: b := parent.Output(w); b.UpdateContext(upd1); parent.UpdateContext(upd2); then one event through b and
+// one through parent.  Output must have given b its own copy of the context.
+func RunOutputFork(s Settings, now time.Time, parent []Step, upd1, upd2 []Cop, level int, ops []Op, msg []byte) []Obs {
+	restore := s.Apply()
+	defer restore()
+	zerolog.SetGlobalLevel(zerolog.Level(-128))
+	defer zerolog.SetGlobalLevel(zerolog.DebugLevel)
+	zerolog.TimestampFunc = func() time.Time { return now }
+	w := &capture{}
+	l := zerolog.New(w).Level(zerolog.Level(-128))
+	for _, st := range parent {
+		l = ApplyStep(l, st, w)
+	}
+	b := l.Output(w)
+	b.UpdateContext(func(c zerolog.Context) zerolog.Context { return ApplyContext(c, upd1) })
+	l.UpdateContext(func(c zerolog.Context) zerolog.Context { return ApplyContext(c, upd2) })
+	out := make([]Obs, 2)
+	for i, lg := range []*zerolog.Logger{&b, &l} {
+		func() {
+			Marks = nil
+			before := len(w.lines)
+			defer func() {
+				if r := recover(); r != nil {
+					out[i].Panic = r
+				}
+				out[i].Marks = append([]uint64{}, Marks...)
+				out[i].Writes = len(w.lines) - before
+				if out[i].Writes > 0 {
+					out[i].Written = true
+					out[i].Line = w.lines[before]
+				}
+			}()
+			e := lg.WithLevel(zerolog.Level(level))
+			ApplyEvent(e, ops)
+			e.Msg(string(msg))
+		}()
+	}
+	return out
+}
